@@ -438,6 +438,35 @@ pub fn c18(em: &mut Emit, thorough: bool, _seed: u64) {
                 &format!("etag:{}", what),
             );
         }
+        // a modification time in the future (clock skew, a restored backup): still the file's
+        // own time, and the same tag for every instance whenever it is opened
+        {
+            let now = std::time::SystemTime::now().duration_since(UNIX_EPOCH).unwrap().as_secs();
+            let mut prev: Option<Vec<u8>> = None;
+            for (what, at) in [("one day ahead", (now + 86_400, 123_456_789u32)), ("two days ahead", (now + 172_800, 5))] {
+                f.set_modified(UNIX_EPOCH + Duration::new(at.0, at.1)).unwrap();
+                let g1 = Crf::new(std::fs::File::open(&path).unwrap(), HeaderMap::new()).unwrap();
+                std::thread::sleep(Duration::from_millis(15));
+                let g2 = Crf::new(std::fs::File::open(&path).unwrap(), HeaderMap::new()).unwrap();
+                let m = std::fs::metadata(&path).unwrap();
+                let (ino, len, s, n) = etag_fields(&m);
+                let (ta, tb) = (g1.etag().unwrap().as_bytes().to_vec(), g2.etag().unwrap().as_bytes().to_vec());
+                let mut ok = true;
+                let mut why = String::new();
+                if ta != tb {
+                    ok = false;
+                    why = format!("file modified {}: two instances opened 15 ms apart have different tags", what);
+                } else if g1.last_modified() != Some(m.modified().unwrap()) {
+                    ok = false;
+                    why = format!("file modified {}: last_modified() is not the file's modification time", what);
+                } else if prev.as_ref() == Some(&ta) {
+                    ok = false;
+                    why = "tag unchanged after the (future) modification time changed".into();
+                }
+                prev = Some(ta.clone());
+                em.case(&format!("ETAG ino={} len={} secs={} nanos={}", ino, len, s, n), &hex(&ta), &pred(ok, || why.clone()), "etag:future");
+            }
+        }
         // modification times before the epoch: a tag all the same, distinct from the mirrored time
         // after the epoch, and the entity is served
         for (what, back) in [("1ns", Duration::new(0, 1)), ("0.3s", Duration::new(0, 300_000_000)),
@@ -865,8 +894,12 @@ pub fn c19(em: &mut Emit, thorough: bool, seed: u64) {
     let secret_ino = std::fs::metadata(t.outer.join("secret")).unwrap().ino();
     let outer_ino = std::fs::metadata(&t.outer).unwrap().ino();
     let long = "L".repeat(254);
+    // the absolute path of the decoy outside the base, written with backslashes
+    let bs_abs = format!("{}\\secret", t.outer.display().to_string().replace('/', "\\"));
     let segs: Vec<&str> = vec![
         "a", "sub", "..", ".", "...", "..a", "a..", "", "secret", "b", "c", "d", "e", "f", "g", "h", "k", "g.gz", &long,
+        // backslashes are ordinary name bytes, not separators
+        "sub\\a", "..\\secret", "\\", "a\\..", &bs_abs,
     ];
     let depth = if thorough { 4 } else { 3 };
     let mut paths: Vec<String> = vec![String::new()];
